@@ -11,7 +11,7 @@ TRUSTED = [
     "no formal Go type system is modelled: type-correctness of emitted code is decided per generated package, not proved for all specs",
 ]
 
-COLLISION = re.compile(r"redeclared|already declared|duplicate (field|method|case|argument)|cannot use _ as (value|type)|other declaration of")
+COLLISION = re.compile(r"redeclared|already declared|duplicate (field|method|case|argument)|cannot use _ as (value|type)|other declaration of|is not a type|is not an expression")
 NOAPI = re.compile(r"undefined: \w+")
 
 
@@ -89,7 +89,14 @@ def check(ctx):
             if broken and "api=false" in fl and NOAPI.search(broken) and "KF-C01-noApiHandler" in listed:
                 kf_hits["KF-C01-noApiHandler"] = kf_hits.get("KF-C01-noApiHandler", 0) + 1
                 continue
-            if broken and COLLISION.search(broken) and kind in ("stress", "fat") and "KF-C01-nameCollision" in listed:
+            names_hit = False
+            if stress and broken:
+                low = re.sub(r"[^a-z0-9]", "", broken.lower())
+                for nm in stress["names"]:
+                    k = re.sub(r"[^a-z0-9]", "", nm.lower())
+                    if len(k) >= 2 and k in low:
+                        names_hit = True  # the diagnostic is about an identifier derived from one of the two awkward names
+            if broken and (COLLISION.search(broken) or names_hit) and kind in ("stress", "fat") and "KF-C01-nameCollision" in listed:
                 kf_hits["KF-C01-nameCollision"] = kf_hits.get("KF-C01-nameCollision", 0) + 1
                 continue
             ctx.violations.append({"kind": "goag reported success but the written package " + ("does not compile" if broken else "is not valid, gofmt-stable Go"),
